@@ -493,7 +493,7 @@ func RunProperty(t *testing.T, p *Property) {
 	}
 	if failed && r.last == nil {
 		// rapid itself failed (e.g. generator trouble) without a property violation
-		fmt.Fprintf(os.Stderr, "HARNESS-ERROR property=%s: rapid reported a failure that is not a violation\n", p.ID)
+		fmt.Fprintf(os.Stderr, "HARNESS-ERROR property=%s: rapid reported a failure that is not a violation:\n%s\n", p.ID, lastRapidMessage)
 		r.writeStats(start)
 		os.Exit(2)
 	}
@@ -589,12 +589,16 @@ func (q quietTB) Logf(format string, args ...any) {
 	}
 	q.T.Logf(format, args...)
 }
+var lastRapidMessage string
+
 func (q quietTB) Errorf(format string, args ...any) {
 	*q.failed = true
+	lastRapidMessage = fmt.Sprintf(format, args...)
 	q.T.Logf("[rapid] "+format, args...)
 }
 func (q quietTB) Fatalf(format string, args ...any) {
 	*q.failed = true
+	lastRapidMessage = fmt.Sprintf(format, args...)
 	q.T.Logf("[rapid] "+format, args...)
 }
 func (q quietTB) Error(args ...any)  { *q.failed = true; q.T.Log(args...) }
